@@ -762,9 +762,8 @@ func ruleByOut(rs []*ruleDef, n string) *ruleDef {
 	return nil
 }
 
-// reachable returns the rules reachable from the targets (rule -> rule edges
-// only: selected files are sources).
-func reachable(rs []*ruleDef, targets []string) map[string]bool {
+// reachable returns the rules reachable from the targets.
+func reachable(root string, rs []*ruleDef, targets []string) map[string]bool {
 	seen := map[string]bool{}
 	var visit func(n string)
 	visit = func(n string) {
@@ -778,6 +777,22 @@ func reachable(rs []*ruleDef, targets []string) map[string]bool {
 		seen[r.name] = true
 		for _, d := range r.files {
 			visit(d)
+		}
+		// a selected source path that is also a rule name resolves to the rule
+		for _, q := range rs {
+			if !exists(filepath.Join(root, "src", filepath.FromSlash(q.name))) {
+				continue
+			}
+			sel, ign := false, false
+			for _, p := range r.sel {
+				sel = sel || patMatches(p, q.name)
+			}
+			for _, p := range r.ign {
+				ign = ign || patMatches(p, q.name)
+			}
+			if sel && !ign {
+				visit(q.name)
+			}
 		}
 		for _, d := range r.incs {
 			visit(d)
@@ -824,7 +839,7 @@ func describeOut(p, name string) string {
 
 func observeOuts(root string, rs []*ruleDef, targets []string) (names []string, desc map[string]string) {
 	desc = map[string]string{}
-	for n := range reachable(rs, targets) {
+	for n := range reachable(root, rs, targets) {
 		if r := ruleByName(rs, n); r.kind == "fs" {
 			names = append(names, n+".fileset")
 		}
@@ -918,7 +933,7 @@ func (w *world) buildOp(always bool, targets []string, line string) string {
 		w.failedRule = ""
 	}
 	w.staticTouched = false
-	if w.failedRule != "" && obs.class == "ok" && reachable(w.rules, targets)[w.failedRule] {
+	if w.failedRule != "" && obs.class == "ok" && reachable(w.root, w.rules, targets)[w.failedRule] {
 		found := false
 		for _, e := range obs.exec {
 			found = found || e == w.failedRule
@@ -1010,7 +1025,7 @@ func (w *world) buildOp(always bool, targets []string, line string) string {
 		}
 	}
 	if obs.class == "ok" {
-		for n := range reachable(w.rules, targets) {
+		for n := range reachable(w.root, w.rules, targets) {
 			w.valid[n] = true
 		}
 	} else {
